@@ -93,10 +93,15 @@ def check(rep, tier, seed):
     genv = GD.env()
     ghex = GD.golden_hex()
     gcase = [{"env": G.show_env(genv), "cmd": "dec", "ty": "(named 0)", "hex": ghex}]
-    gimpl, gmod = C.run_codec(harness, model, gcase, wd, "golden")
-    golden = {"bytes": len(ghex) // 2, "implementation": gimpl[0][:60] + " ... " + gimpl[0][-12:], "agree": gimpl[0] == gmod[0]}
-    if gimpl[0] != gmod[0]:
-        dis.append(("dec (named 0) <dataset1.bin>", gimpl[0][:200], gmod[0][:200]))
+    gimpl = C._run_codec_side(harness, gcase, [C.codec_line(gcase[0])], wd, "golden.impl", 1, 3000)
+    # one pass of the model over the 242 KB (its list-based reader is quadratic): decode, then re-encode what it decoded
+    path = C.os.path.join(wd, "golden.reenc.cases")
+    C.write_lines(path, [f"E {G.show_env(genv)}", f"reenc (named 0) {ghex}"])
+    mline = C.run([model, "codec", path], timeout=1800).stdout.splitlines()[-1]
+    gmod_dec, _, gmod_enc = mline.partition(" ;; ")
+    golden = {"bytes": len(ghex) // 2, "implementation": gimpl[0][:60] + " ... " + gimpl[0][-12:], "agree": gimpl[0] == gmod_dec}
+    if gimpl[0] != gmod_dec:
+        dis.append(("dec (named 0) <dataset1.bin>", gimpl[0][:200], gmod_dec[:200]))
     if not (gimpl[0].startswith("ok ") and gimpl[0].endswith(" 0")):
         bad.append(("dec TestModel1 <desert_macro/golden/dataset1.bin>", gimpl[0][:200],
                     "the Scala-written golden file is not decoded completely"))
@@ -104,34 +109,26 @@ def check(rep, tier, seed):
     # Scala wrote `list` (a Scala List) in the unknown-length form and repeated the header name "cached" in full where
     # this writer emits the known-length form and a back-reference - two freedoms of the format (C12, section 4.5), so
     # the two byte strings differ there and nowhere else; both must denote the same value
-    path = C.os.path.join(wd, "golden.reenc.cases")
-    C.write_lines(path, [f"E {G.show_env(genv)}", f"reenc (named 0) {ghex}"])
-    re = C.run([model, "codec", path], timeout=900).stdout.splitlines()[-1]
-    if re.startswith("ok ") and re.endswith(" 0"):
-        rhex = re.split(" ")[1]
-        same = sum(1 for a, b in zip(bytes.fromhex(rhex)[::-1], bytes.fromhex(ghex)[::-1]) if a == b)
+    if gmod_enc.startswith("ok "):
+        rhex = gmod_enc.split(" ")[1]
         golden["reference_reencoding"] = {"bytes": len(rhex) // 2, "golden_bytes": len(ghex) // 2}
         xcase = [{"env": G.show_env(genv), "cmd": "dec", "ty": "(named 0)", "hex": rhex}]
-        ximpl, xmod = C.run_codec(harness, model, xcase, wd, "goldenx")
+        ximpl = C._run_codec_side(harness, xcase, [C.codec_line(xcase[0])], wd, "goldenx.impl", 1, 3000)
         golden["reference_reencoding"]["implementation_reads_the_same_value"] = (ximpl[0] == gimpl[0])
         if ximpl[0] != gimpl[0]:
             bad.append(("dec TestModel1 <reference re-encoding of dataset1.bin>", ximpl[0][:200],
                         "the reference encoder's bytes for the golden value are not read back as that value"))
-        if ximpl[0] != xmod[0]:
-            dis.append(("dec (named 0) <reference re-encoding of dataset1.bin>", ximpl[0][:200], xmod[0][:200]))
     else:
-        dis.append(("reenc (named 0) <dataset1.bin>", "ok <hex> 0", re[:120]))
+        dis.append(("reenc (named 0) <dataset1.bin>", "ok <hex>", gmod_enc[:120]))
     # and the implementation round-trips the value it read (what the repository's own test asserts)
     if gimpl[0].startswith("ok "):
         val = gimpl[0][3:].rpartition(" ")[0]
         rt = [R.mk(genv, ("named", 0), val, "-")]
-        rimpl, rmod = C.run_codec(harness, model, rt, wd, "goldenrt")
+        rimpl = C._run_codec_side(harness, rt, [C.codec_line(rt[0])], wd, "goldenrt.impl", 1, 3000)
         ok, why = R.judge_rt(rt[0], rimpl[0])
         golden["implementation_round_trips_it"] = ok
         if not ok:
             bad.append(("rt TestModel1 <value of dataset1.bin>", rimpl[0][:200], why))
-        if rimpl[0] != rmod[0]:
-            dis.append(("rt (named 0) <value of dataset1.bin>", rimpl[0][:200], rmod[0][:200]))
     C.proof_coverage(rep, ob, "C04", ["external anchors of the reference format: the golden file dataset1.bin written by Scala desert "
                                       "(the reference decoder reads it to the value the implementation reads; the reference encoder's "
                                       "bytes for that value differ from Scala's only by the size form of one list and one repeated header "
